@@ -1,0 +1,15 @@
+//go:build verif
+
+package bep44
+
+import "time"
+
+// Makes the item d older, as if d had elapsed since it was stored.
+func VerifAgeItem(i *Item, d time.Duration) {
+	i.created = i.created.Add(-d)
+}
+
+// When the item was stored (zero if it never went through a Wrapper).
+func VerifCreated(i *Item) time.Time {
+	return i.created
+}
